@@ -143,6 +143,9 @@ fn index_list<Data: GarnishData>(
 ) -> Result<Option<Data::Size>, RuntimeError<Data::Error>> {
     if index < Data::Number::zero() {
         Ok(None)
+    } else if index >= <Data as GarnishData>::DataFactory::size_to_number(this.get_list_len(list.clone())?) {
+        // past the end, same as the other sequence types, data implementations may report this as an error
+        Ok(None)
     } else {
         match this.get_list_item(list, index)? {
             Some(addr) => Ok(Some(addr)),
